@@ -1,9 +1,23 @@
 // C11 driver: the listening side and the poll call under injected faults.
-//  case <id> acc
+//  case <id> acc [clobber]
 //     CONN                 a raw client completes a TCP handshake with the listener (loopback)
 //     ACC ok|<errno name>  the kernel's answer to the next accept4(); then the listener is dispatched
-//  case <id> loop <k> <n>
-//     (one op) GO          k consecutive EINTR answers from epoll_wait/poll, n tasks + quit queued by a helper thread
+//     with `clobber` the logger's output function performs a failing system call (errno := EBADF) on
+//     every line it is given: a test of errno placed after a log statement then sees the wrong value
+//  case <id> loop
+//     one op per PASS of EventLoop::loop() (= per return of epoll_wait / poll on the loop thread):
+//     I [ext..]            the poll call fails with EINTR
+//     E <errno> [ext..]    the poll call fails with another errno
+//     N [ext..]            the real poll call, with timeout 0
+//     ext = what ANOTHER thread does while the loop thread is in the poll call, before it returns:
+//       q<f>  loop.queueInLoop(functor f)     p<i>  pipe i becomes readable     quit  loop.quit()
+//     functor f: f in 10..19 queues functor f-10 (from the loop thread, while the functors run);
+//     functor 99 calls quit(); every other functor only records itself.  channel i (read end of pipe
+//     i, i < 3): drains the pipe; channel 1 also queues functor 5 (from its handler).
+//     After the script is used up the loop is told to quit.  Output, one line per op:
+//       ok disp=<channels handled, sorted> ran=<functors run, in order> pend=<functors left pending>
+//          quit=<quit_> it=<passes so far> log=<error-level log lines of this pass>
+//       ok unused           the loop had already left its while loop
 //  end
 // accept4 / epoll_wait / poll are interposed at link time (-Wl,--wrap=...). A fatal accept class
 // (LOG_FATAL -> abort) is executed in a forked child; the parent reports ev=Abort.
@@ -19,7 +33,9 @@
 #include <arpa/inet.h>
 #include <unistd.h>
 
+#include <algorithm>
 #include <atomic>
+#include <functional>
 #include <iostream>
 #include <map>
 #include <memory>
@@ -46,8 +62,9 @@ int __real_epoll_wait(int epfd, struct epoll_event* ev, int max, int timeout);
 int __real_poll(struct pollfd* fds, nfds_t n, int timeout);
 }
 static int g_accept_err = 0;          // 0 = let the kernel answer
-static std::atomic<int> g_intr(0);    // number of poll calls still to be interrupted
-static std::atomic<int> g_pollcalls(0);
+static int scriptedPoll(const std::function<int()>& real);
+static bool g_scripting = false;      // loop mode: the loop thread's poll calls follow the script
+static pthread_t g_loopThread;
 
 extern "C" int __wrap_accept4(int fd, struct sockaddr* a, socklen_t* l, int flags)
 {
@@ -56,14 +73,14 @@ extern "C" int __wrap_accept4(int fd, struct sockaddr* a, socklen_t* l, int flag
 }
 extern "C" int __wrap_epoll_wait(int epfd, struct epoll_event* ev, int max, int timeout)
 {
-  ++g_pollcalls;
-  if (g_intr.load() > 0) { --g_intr; errno = EINTR; return -1; }
+  if (g_scripting && pthread_equal(pthread_self(), g_loopThread))
+    return scriptedPoll([=]() { return __real_epoll_wait(epfd, ev, max, 0); });
   return __real_epoll_wait(epfd, ev, max, timeout);
 }
 extern "C" int __wrap_poll(struct pollfd* fds, nfds_t n, int timeout)
 {
-  if (timeout != 0) ++g_pollcalls;     // the driver's own zero-timeout probes do not count
-  if (timeout != 0 && g_intr.load() > 0) { --g_intr; errno = EINTR; return -1; }
+  if (g_scripting && pthread_equal(pthread_self(), g_loopThread))
+    return scriptedPoll([=]() { return __real_poll(fds, n, 0); });
   return __real_poll(fds, n, timeout);
 }
 
@@ -85,12 +102,82 @@ static int countFds()
   return n;
 }
 
-static void nullOutput(const char*, int) {}
+static std::atomic<int> g_errlogs(0);   // error-level log lines seen by the output function
+static bool g_clobber = false;
+// the logger's output function: counts error-level lines; in `clobber` mode it also does what a real
+// sink may do - a system call that fails - so that errno is no longer what the caller of LOG_* left
+static void countingOutput(const char* msg, int len)
+{
+  if (memmem(msg, static_cast<size_t>(len), " ERROR ", 7) != NULL) ++g_errlogs;
+  if (g_clobber) { ::close(-1); }          // EBADF
+}
 static void nullFlush() {}
+
+// ---- loop mode -------------------------------------------------------------------------------
+struct LoopStep { char kind; int err; std::vector<string> exts; };
+struct PassRec { bool used; std::vector<int> disp, ran; size_t pend; int quit; long it; int log; };
+static std::vector<LoopStep> g_steps;
+static std::vector<PassRec> g_recs;
+static size_t g_next = 0;
+static int g_cur = -1;
+static EventLoop* g_loop = NULL;
+static int64_t g_it0 = 0;
+static int g_log0 = 0;
+static int g_pipes[3][2];
+
+static void runFunctor(int f);
+static void doExt(const string& e)
+{
+  if (e == "quit") g_loop->quit();
+  else if (e[0] == 'q') { int f = atoi(e.c_str() + 1); g_loop->queueInLoop([f]() { runFunctor(f); }); }
+  else if (e[0] == 'p') { int i = atoi(e.c_str() + 1); char c = 'x'; if (::write(g_pipes[i][1], &c, 1) != 1) perror("pipe write"); }
+}
+static void runFunctor(int f)
+{
+  if (g_cur >= 0) g_recs[static_cast<size_t>(g_cur)].ran.push_back(f);
+  if (f >= 10 && f < 20) { int g = f - 10; g_loop->queueInLoop([g]() { runFunctor(g); }); }
+  if (f == 99) g_loop->quit();
+}
+static void finishRecord(bool exited)
+{
+  if (g_cur < 0) return;
+  PassRec& r = g_recs[static_cast<size_t>(g_cur)];
+  {
+    MutexLockGuard lock(g_loop->mutex_);
+    r.pend = g_loop->pendingFunctors_.size();
+  }
+  r.quit = (exited || g_loop->quit_) ? 1 : 0;    // loop() clears quit_ after its while loop
+  r.it = static_cast<long>(g_loop->iteration() - g_it0);
+  r.log = g_errlogs.load() - g_log0;
+  g_log0 = g_errlogs.load();
+  std::sort(r.disp.begin(), r.disp.end());
+  g_cur = -1;
+}
+// called on the loop thread in place of every epoll_wait / poll of EventLoop::loop()
+static int scriptedPoll(const std::function<int()>& real)
+{
+  finishRecord(false);
+  if (g_next >= g_steps.size())
+  {
+    g_loop->quit();                 // script used up: one more (unrecorded) pass, then the loop ends
+    return real();
+  }
+  const LoopStep& st = g_steps[g_next];
+  g_cur = static_cast<int>(g_next);
+  g_recs[g_next].used = true;
+  ++g_next;
+  if (!st.exts.empty())
+  {
+    std::thread other([&st]() { for (const string& e : st.exts) doExt(e); });
+    other.join();
+  }
+  if (st.kind != 'N') { errno = st.err; return -1; }
+  return real();
+}
 
 int main()
 {
-  Logger::setOutput(nullOutput);
+  Logger::setOutput(countingOutput);
   Logger::setFlush(nullFlush);
   signal(SIGPIPE, SIG_IGN);
   EventLoop loop;
@@ -102,8 +189,10 @@ int main()
   int baseFds = 0;
   uint16_t port = 0;
   string line, mode;
-  int loopK = 0, loopN = 0;
   std::vector<string> events;
+  std::vector<std::unique_ptr<Channel> > pipeChannels;
+  g_loop = &loop;
+  g_loopThread = pthread_self();
   while (std::getline(std::cin, line))
   {
     std::vector<string> w = vh::splitWs(line);
@@ -128,7 +217,54 @@ int main()
         prevValved = 0;
         baseFds = countFds();
       }
-      else { loopK = atoi(w[3].c_str()); loopN = atoi(w[4].c_str()); }
+      g_clobber = (mode == "acc" && w.size() > 3 && w[3] == "clobber");
+      if (mode == "loop") { g_steps.clear(); g_recs.clear(); }
+      continue;
+    }
+    if (k == "end" && mode == "loop")
+    {
+      // three pipes watched by the loop; then run the loop: every pass follows the script
+      for (int i = 0; i < 3; ++i)
+      {
+        if (::pipe2(g_pipes[i], O_NONBLOCK | O_CLOEXEC) != 0) { perror("pipe2"); return 3; }
+        pipeChannels.emplace_back(new Channel(&loop, g_pipes[i][0]));
+        pipeChannels.back()->setReadCallback([i](Timestamp) {
+          char buf[64];
+          while (::read(g_pipes[i][0], buf, sizeof buf) > 0) {}
+          if (g_cur >= 0) g_recs[static_cast<size_t>(g_cur)].disp.push_back(i);
+          if (i == 1) g_loop->queueInLoop([]() { runFunctor(5); });
+        });
+        pipeChannels.back()->enableReading();
+      }
+      g_recs.assign(g_steps.size(), PassRec());
+      g_next = 0; g_cur = -1; g_it0 = loop.iteration(); g_log0 = g_errlogs.load();
+      g_scripting = true;
+      loop.loop();
+      g_scripting = false;
+      finishRecord(true);
+      {
+        // whatever is still queued belongs to this case only
+        MutexLockGuard lock(loop.mutex_);
+        loop.pendingFunctors_.clear();
+      }
+      for (int i = 0; i < 3; ++i)
+      {
+        pipeChannels[static_cast<size_t>(i)]->disableAll();
+        pipeChannels[static_cast<size_t>(i)]->remove();
+        ::close(g_pipes[i][0]); ::close(g_pipes[i][1]);
+      }
+      pipeChannels.clear();
+      for (const PassRec& r : g_recs)
+      {
+        if (!r.used) { printf("ok unused\n"); continue; }
+        string d, f;
+        for (size_t i = 0; i < r.disp.size(); ++i) { if (i) d += ","; d += "c" + std::to_string(r.disp[i]); }
+        for (size_t i = 0; i < r.ran.size(); ++i) { if (i) f += ","; f += "f" + std::to_string(r.ran[i]); }
+        printf("ok disp=%s ran=%s pend=%zu quit=%d it=%ld log=%d\n", d.empty() ? "-" : d.c_str(), f.empty() ? "-" : f.c_str(),
+               r.pend, r.quit, r.it, r.log);
+      }
+      printf("end\n");
+      fflush(stdout);
       continue;
     }
     if (k == "end")
@@ -215,24 +351,15 @@ int main()
     }
     else
     {
-      // loop mode: k interrupted polls, n tasks and a quit from a helper thread
-      int64_t it0 = loop.iteration();
-      int calls0 = g_pollcalls.load();
-      std::atomic<int> ran(0);
-      g_intr = loopK;
-      std::thread helper([&]() {
-        ::usleep(30 * 1000);
-        for (int i = 0; i < loopN; ++i) loop.queueInLoop([&ran]() { ++ran; });
-        loop.runInLoop([&loop]() { loop.quit(); });
-      });
-      loop.loop();
-      helper.join();
-      int64_t iters = loop.iteration() - it0;
-      int calls = g_pollcalls.load() - calls0;
-      // every interrupted poll is one silent iteration; the rest is bounded by the work: no spinning
-      bool bounded = iters <= loopK + loopN + 4 && calls == iters;
-      printf("ok ev=- ran=%d exited=1 interrupted_left=%d bounded=%d\n", ran.load(), g_intr.load(), bounded ? 1 : 0);
-      fflush(stdout);
+      // loop mode: collect the script; it is executed at `end`
+      LoopStep st;
+      st.kind = k[0];
+      st.err = EINTR;
+      size_t from = 1;
+      if (k == "E") { st.err = errnoOf(w[1]); from = 2; if (st.err < 0) { fprintf(stderr, "bad errno %s\n", w[1].c_str()); return 2; } }
+      else if (k != "I" && k != "N") { fprintf(stderr, "bad op %s\n", k.c_str()); return 2; }
+      for (size_t i = from; i < w.size(); ++i) st.exts.push_back(w[i]);
+      g_steps.push_back(st);
     }
   }
   return 0;
